@@ -2706,6 +2706,10 @@ func (b transportResponseBody) Read(p []byte) (n int, err error) {
 		return 0, cs.readErr
 	}
 	n, err = b.cs.bufPipe.Read(p)
+	// Every byte that left the pipe is owed back to the peer at connection
+	// level, including the ones cut off below because the response is longer
+	// than its declared Content-Length.
+	credit := n
 	if cs.bytesRemain != -1 {
 		if int64(n) > cs.bytesRemain {
 			n = int(cs.bytesRemain)
@@ -2714,25 +2718,25 @@ func (b transportResponseBody) Read(p []byte) (n int, err error) {
 				cs.abortStream(err)
 			}
 			cs.readErr = err
-			return int(cs.bytesRemain), err
-		}
-		cs.bytesRemain -= int64(n)
-		if err == io.EOF && cs.bytesRemain > 0 {
-			err = io.ErrUnexpectedEOF
-			cs.readErr = err
-			return n, err
+		} else {
+			cs.bytesRemain -= int64(n)
+			if err == io.EOF && cs.bytesRemain > 0 {
+				err = io.ErrUnexpectedEOF
+				cs.readErr = err
+				return n, err
+			}
 		}
 	}
-	if n == 0 {
+	if credit == 0 {
 		// No flow control tokens to send back.
 		return
 	}
 
 	cc.mu.Lock()
-	connAdd := cc.inflow.add(n)
+	connAdd := cc.inflow.add(credit)
 	var streamAdd int32
 	if err == nil { // No need to refresh if the stream is over or failed.
-		streamAdd = cs.inflow.add(n)
+		streamAdd = cs.inflow.add(credit)
 	}
 	cc.mu.Unlock()
 
